@@ -105,15 +105,15 @@ throttling, i.e. every arrival order; also every pair of depth limits): two unta
 same request are equal. -/
 theorem answers_schedule_independent (w : World) (I : Interp Node) (hc : Coherent (sysOf w) I)
     (hcons : ∀ s, I.negD s → I.negP s) (d1 d2 : Nat) (a1 c1 a2 c2 : Bool)
-    (h1 : Eval (sysOf w) d1 0 [] (rootExpr w) (.ok a1 c1 false))
-    (h2 : Eval (sysOf w) d2 0 [] (rootExpr w) (.ok a2 c2 false)) : a1 = a2 :=
+    (h1 : Eval (sysOf w) noFacts d1 0 [] (rootExpr w) (.ok a1 c1 false))
+    (h2 : Eval (sysOf w) noFacts d2 0 [] (rootExpr w) (.ok a2 c2 false)) : a1 = a2 :=
   C01.decisions_agree w I hc hcons d1 d2 a1 c1 a2 c2 h1 h2
 
 /-- the full statement of C02 for the default strategy: *all* decisions agree -/
 def C02_Full : Prop :=
   ∀ (w : World) (d1 d2 : Nat) (a1 c1 t1 a2 c2 t2 : Bool),
-    Eval (sysOf w) d1 0 [] (rootExpr w) (.ok a1 c1 t1) →
-    Eval (sysOf w) d2 0 [] (rootExpr w) (.ok a2 c2 t2) → a1 = a2
+    Eval (sysOf w) noFacts d1 0 [] (rootExpr w) (.ok a1 c1 t1) →
+    Eval (sysOf w) noFacts d2 0 [] (rootExpr w) (.ok a2 c2 t2) → a1 = a2
 
 /-- why it fails on the unchanged code (F2 composed with F1): the flag of `intersection` depends on the
 arrival order, and an enclosing `exclusion` turns the flag into a decision. -/
